@@ -4,4 +4,9 @@ go 1.26.0
 
 require mvdan.cc/sh/v3 v3.0.0
 
+require (
+	golang.org/x/sys v0.47.0 // indirect
+	golang.org/x/term v0.45.0 // indirect
+)
+
 replace mvdan.cc/sh/v3 => /repo
